@@ -9,7 +9,7 @@ import re
 
 from .. import lib
 
-CH = {"NL": "\n"}
+CH = {"NL": "\n", "NUL": "\x00"}
 
 
 def txt(seq):
